@@ -44,7 +44,11 @@ impl Core {
             return None;
         }
 
-        let mut should_add_node = false;
+        // Any expected response (the socket already matched its transaction id and
+        // address to an inflight request) refreshes the responder in our routing tables,
+        // including responses to the PING requests of the periodic table maintenance,
+        // which belong to no query.
+        let mut should_add_node = true;
         let author_id = message.get_author_id();
         let from_version = message.version.to_owned();
 
@@ -54,9 +58,6 @@ impl Core {
             .values_mut()
             .find(|query| query.inflight(message.transaction_id))
         {
-            // KrpcSocket would not give us a response from the wrong address for the transaction_id
-            should_add_node = true;
-
             if let Some(nodes) = message.get_closer_nodes() {
                 for node in nodes {
                     query.add_candidate(node.clone());
